@@ -37,6 +37,9 @@ CHECKS = {
  "C11": ("Boundary check with per-scope sentinels: the same name is planted in every subset of {data frame, caller locals, caller globals, extra_namespace} (x built-in or not) with a distinct value per scope and per stack level, for the roles argument / backquoted argument / keyword value (plain, compound expression, nested call) / callee / dotted callee (a.f, a.b.f) / None-valued binding, at env depths 0..3 through generated nested callers that live in different module dictionaries, through the monitored entry point and the raw function; the observed value identifies the winning scope, which must be the first defining scope in the documented order, from the frame env selects (locals AND globals), and an undefined name must raise.",
          "The configuration space is enumerated completely for the listed roles (exhaustive: true); other ways of naming things (attribute access on arguments, names inside subscripts) are outside the formula language.",
          "runtime boundary monitor over an exhaustively enumerated configuration space with identifying sentinels"),
+ "C12": ("Boundary check against Python's own eval: generated call texts (operator trees over columns, int/float/str/True/False/None literals, nested recording calls with positional and keyword arguments, numpy ufuncs; + - * / **, unary signs, six comparisons; parentheses as Python needs them plus redundant ones; random whitespace) are evaluated as I(t), {t}, rec(t, k=..) through design_matrices and as Python expressions over the same names; columns, the argument logs of recording callables (values, keyword names, literal types, number of calls) and the term names (identical across whitespace variants, single spacing, tokens of the source, reads back through Python's ast as the same expression) are compared; pairs of texts with different Python ASTs must give two names, two terms and two correct columns.",
+         "Python syntax outside the statement's list is not generated; whether redundant parentheses survive in names is not judged.",
+         "runtime boundary monitor with Python eval as the executable reference model, recording callables, metamorphic whitespace variants"),
 }
 NOT_APPLICABLE = {}
 PENDING = [f"C{i:02d}" for i in range(1, 18) if f"C{i:02d}" not in CHECKS]
